@@ -120,8 +120,14 @@ def foreign_geo(sub, nx, ny, nz, conv, atm, flags):
         z -= t
         num += 1
         lname = (str(num) if conv == 0 else nm(num)).rjust(LL)
-        layers.append((lname, r2(z), r2(z + 0.5 * t)))
-        lines.append(lname.ljust(3) + f(z) + f(z + 0.5 * t))
+        if flags & 32 and num % 2 == 0:
+            # centre field left blank, as MULgraph itself does: the reader takes the elevation
+            # midway between this bottom and the one above (as the file carries them)
+            layers.append((lname, r2(z), 0.5 * (r2(z) + layers[-1][1])))
+            lines.append(lname.ljust(3) + f(z))
+        else:
+            layers.append((lname, r2(z), r2(z + 0.5 * t)))
+            lines.append(lname.ljust(3) + f(z) + f(z + 0.5 * t))
     lines.append('')
     surface = []
     if flags & 4 and nz >= 2:
